@@ -21,6 +21,8 @@
 package compile
 
 import (
+	"math"
+
 	"go.uber.org/thriftrw/ast"
 	"go.uber.org/thriftrw/wire"
 )
@@ -61,6 +63,13 @@ func compileEnum(file string, src *ast.Enum) (*EnumSpec, error) {
 			value = *astItem.Value
 		}
 		prev = value
+		if value > math.MaxInt32 || value < math.MinInt32 {
+			return nil, compileError{
+				Target: src.Name + "." + astItem.Name,
+				Line:   astItem.Line,
+				Reason: enumValueOutOfBoundsError{Value: value},
+			}
+		}
 
 		itemAnnotations, err := compileAnnotations(astItem.Annotations)
 		if err != nil {
